@@ -36,6 +36,6 @@ def cleanup(repo):
         return
     t = tag(repo)
     for n in os.listdir(CACHE):
-        if n.endswith('-' + t) or n.endswith('-' + t + '.part'):
+        if n.endswith('-' + t) or n.endswith('-' + t + '.part') or n.endswith('-' + t + '.lock'):
             p = os.path.join(CACHE, n)
             shutil.rmtree(p, ignore_errors=True) if os.path.isdir(p) else os.remove(p)
